@@ -34,7 +34,8 @@ ASSUMPTIONS = ["known findings are keyed by (phase, exception type, raising "
                "pox.lib.packet per parse+print+pack"]
 REQUIRED = ["frames", "parsed_ok", "truncations", "corruptions", "structured",
             "random_frames", "chains_walked", "reserialised", "printed",
-            "budget_armed", "packet_in_events", "checksum_fixed_mutants"]
+            "budget_armed", "packet_in_events", "checksum_fixed_mutants",
+            "deeply_nested_frames"]
 TIMEOUT = {"quick": 1200, "thorough": 10800}
 
 _st = {}
@@ -128,8 +129,9 @@ def check_frame (raw, rep, case):
         unparsed_seen = type(q).__name__
       q = q.next
       n += 1
-      if n > 64:
-        fire("layer chain does not end", ">64 layers: %r" % names[:10]); return
+      if n > 64 + len(raw) // 2:
+        # (every real layer consumes at least a couple of bytes of the frame)
+        fire("layer chain does not end", ">%d layers: %r" % (n, names[:10])); return
     rep.count("chains_walked")
     if q is not None and not isinstance(q, (bytes, bytearray)):
       fire("chain ends in %s instead of raw bytes" % type(q).__name__,
@@ -234,6 +236,37 @@ def icmp6_fixups (raw, rng, tier):
       yield "fixup", rebuild(msg[:p] + bytes([v]) + msg[p + 1:])
 
 
+def deep_frames ():
+  """
+  Frames that nest one header type very deeply (jumbo-sized): a parser or
+  serialiser that recurses once per layer meets the interpreter's recursion
+  limit here, and a handler must still not see an exception.
+  """
+  from pvm.ref import frames as F
+  M1 = bytes.fromhex("020000000001"); M2 = bytes.fromhex("020000000002")
+  for n in (40, 300, 400, 990, 1100, 2000, 5000):
+    labels = b"".join(struct.pack("!L", ((16 + i % 1000) << 12) | 64) for i in range(n))
+    yield "mpls_x%d" % n, F.eth(M2, M1, 0x8847, labels + struct.pack("!L", (99 << 12) | 0x100 | 64) + b"tail")
+    yield "mpls_open_x%d" % n, F.eth(M2, M1, 0x8847, labels)
+    tags = b"".join(struct.pack("!HH", 1 + i % 4000, 0x8100) for i in range(n))
+    yield "vlan_x%d" % n, M2 + M1 + b"\x81\x00" + tags + struct.pack("!HH", 5, 0x88b5) + b"tail"
+  # GRE-in-IP-in-GRE...
+  for n in (10, 100, 400, 1200):
+    inner = b"innermost"
+    for i in range(n):
+      g = struct.pack("!HH", 0, 0x0800) + inner
+      if 20 + len(g) > 65000: break
+      inner = F.ipv4(0x0a000001, 0x0a000002, 47, g)
+    yield "gre_ip_x%d" % n, F.eth(M2, M1, 0x0800, inner)
+  # ICMP errors quoting ICMP errors
+  for n in (10, 200, 1200):
+    inner = F.ipv4(0x0a000001, 0x0a000002, 17, F.udp(1, 2, b"x", src=0x0a000001, dst=0x0a000002))
+    for i in range(n):
+      if len(inner) > 64000: break
+      inner = F.ipv4(0x0a000002, 0x0a000001, 1, F.icmp(3, 1, b"\0\0\0\0", inner))
+    yield "icmp_quote_x%d" % n, F.eth(M2, M1, 0x0800, inner)
+
+
 def random_frames (rng, n):
   types_ = [0x0800, 0x0806, 0x86dd, 0x8100, 0x88cc, 0x888e, 0x8847, 0x8035,
             0x0026, 0x05dc]
@@ -252,11 +285,19 @@ def random_frames (rng, n):
 def plan (tier, seed):
   n = len(corpus.build())
   if tier == "quick":
-    return [dict(base=i, rand=400) for i in range(n)]
-  return [dict(base=i, rand=40000) for i in range(n)]
+    return [dict(base=i, rand=400) for i in range(n)] + [dict(base=-1, rand=0)]
+  return [dict(base=i, rand=250000) for i in range(n)] + [dict(base=-1, rand=0)]
 
 
 def run (spec, rep):
+  if spec["base"] == -1:
+    for name, b in deep_frames():
+      rep.count("deeply_nested_frames")
+      do_case(dict(frame=b, base=name, mut="deep"), rep)
+      if len(b) < 5000:
+        for k in (len(b) - 1, len(b) - 3, len(b) // 2):
+          do_case(dict(frame=b[:k], base=name, mut="deep-trunc"), rep)
+    return
   C = corpus.build()
   name, raw = C[spec["base"]]
   rng = random.Random("c15/%d/%s" % (spec["seed"], name))
